@@ -67,6 +67,67 @@ func cmdC13(r *RNG, n int, e *Emitter, args []string) {
 					e.Fail(m)
 				}
 			}
+			// the other operations on translated copies (sh <= 52)
+			if sh <= 52 {
+				// SimplifyPath64: depends on coordinate differences only, so the result translates exactly
+				if len(s) > 0 && len(s[0]) >= 4 {
+					p := s[0]
+					eps := []float64{0, 1, 1.5, float64(G) / 8, float64(G) / 3}[r.Intn(5)]
+					closed := r.Bool()
+					a := clip.SimplifyPath64(p, eps, closed)
+					b := shiftPaths(clip.Paths64{clip.SimplifyPath64(shiftPaths(clip.Paths64{p}, vx, vy)[0], eps, closed)}, -vx, -vy)[0]
+					if !pathsEqual(clip.Paths64{a}, clip.Paths64{b}) {
+						e.Fail(map[string]any{"kind": "SimplifyPath64 changes under translation", "path": pathJSON(p), "eps": eps, "closed": closed, "v": []int64{vx, vy}, "base": pathJSON(a), "translated_back": pathJSON(b)})
+					}
+					e.Count("simplify-translated")
+				}
+				// RectClipPaths64 of the subject by a rectangle through the grid
+				if r.Intn(2) == 0 {
+					l, t := r.Range(-G/4, G/2), r.Range(-G/4, G/2)
+					rr, b := l+r.Range(5, G), t+r.Range(5, G)
+					var o1, o2 clip.Paths64
+					perr := safeCall(func() {
+						o1 = clip.RectClipPaths64(clip.NewRect64(l, t, rr, b), s)
+						o2 = clip.RectClipPaths64(clip.NewRect64(l+vx, t+vy, rr+vx, b+vy), shiftPaths(s, vx, vy))
+					})
+					rp := clip.Paths64{rectPath(l, t, rr, b)}
+					m2 := map[string]any{"subject": pathsJSON(s), "clip": pathsJSON(rp), "clip_nil": false, "ct": 0, "fr": 0, "mode": "translate", "op": "RectClipPaths64", "v": []int64{vx, vy}}
+					if perr != "" {
+						m2["panic"], m2["kind"] = perr, "RectClipPaths64 panics on translated input"
+						e.Fail(m2)
+					} else {
+						m2["out_base"], m2["out_back"] = pathsJSON(o1), pathsJSON(shiftPaths(o2, -vx, -vy))
+						line, _ := genLine("sameodd", "4", []clip.Paths64{o1, shiftPaths(o2, -vx, -vy)}, append(clonePaths(s), rp...), nil)
+						e.Case(fmt.Sprintf("c13-%dtr", i), line, m2)
+						e.Count("rectclip-translated")
+					}
+				}
+				// InflatePaths64 of a simple polygon set: the band is the two results' own boundaries
+				if r.Intn(3) == 0 {
+					S := []float64{40, 80, 200}[r.Intn(3)]
+					in := genSimpleSet(r, S)
+					delta := S * (0.05 + 0.3*r.Float())
+					if r.Bool() {
+						delta = -delta / 2
+					}
+					jt := clip.JoinType(r.Intn(4))
+					var o1, o2 clip.Paths64
+					perr := safeCall(func() {
+						o1 = clip.InflatePaths64(in, delta, jt, clip.Polygon)
+						o2 = clip.InflatePaths64(shiftPaths(in, vx, vy), delta, jt, clip.Polygon)
+					})
+					if perr != "" {
+						e.Fail(map[string]any{"kind": "InflatePaths64 panics on translated input", "panic": perr, "path": pathsJSON(in), "v": []int64{vx, vy}})
+					} else {
+						back := shiftPaths(o2, -vx, -vy)
+						m3 := map[string]any{"subject": pathsJSON(o1), "clip": pathsJSON(back), "clip_nil": false, "ct": 0, "fr": 0, "mode": "translate", "op": fmt.Sprintf("InflatePaths64 delta=%v join=%d of %v", delta, jt, in), "v": []int64{vx, vy},
+							"out_base": pathsJSON(o1), "out_back": pathsJSON(back)}
+						line, _ := genLine("sameodd", "4", []clip.Paths64{o1, back}, append(clonePaths(o1), back...), nil)
+						e.Case(fmt.Sprintf("c13-%dto", i), line, m3)
+						e.Count("inflate-translated")
+					}
+				}
+			}
 		default: // scaling up to 2^61
 			sh := uint(20 + r.Intn(36))
 			k := (int64(1) << sh) / G
